@@ -35,6 +35,18 @@ REP = ("inyt-cfg-50", "inyt-log-50")          # representative pair for the enum
 HEATER_KEYS = ("TempUnits", "SetpointG", "DisplayedTempG", "RealSetPointG")
 
 
+_VCOUNT = {}
+
+
+def viol(ctx, key, inp, expected, observed):
+    """ctx.violation, at most 25 per category (the prefix of the key): a broken conversion fails on 100 000+ inputs"""
+    cat = key.split(":")[0]
+    _VCOUNT[cat] = _VCOUNT.get(cat, 0) + 1
+    ctx.hist("violations_by_category", cat)
+    if _VCOUNT[cat] <= 25:
+        ctx.violation(key, inp, expected, observed)
+
+
 def run_coro(coro):
     try:
         coro.send(None)
@@ -190,15 +202,15 @@ def enumerate_words(ctx, spa, tag, lines, expect):
             ctx.count("evaluations")
             if not ok_val:
                 fails += 1
-                ctx.violation(f"value:{units}:{raw}", {"kind": "value", "units": units, "raw": raw},
+                viol(ctx, f"value:{units}:{raw}", {"kind": "value", "units": units, "raw": raw},
                               f"the double nearest to {exact_read(units, raw)}", repr(v))
             if w1 != raw or w2 != raw:
                 fails += 1
-                ctx.violation(f"readback:{units}:{raw}", {"kind": "readback", "units": units, "raw": raw},
+                viol(ctx, f"readback:{units}:{raw}", {"kind": "readback", "units": units, "raw": raw},
                               f"writing the presented value {v!r} stores {raw}", {"sync": w1, "async": w2})
             if prev is not None and isinstance(v, float) and isinstance(prev, float) and not prev < v:
                 fails += 1
-                ctx.violation(f"order-read:{units}:{raw}", {"kind": "order-read", "units": units, "raw": raw},
+                viol(ctx, f"order-read:{units}:{raw}", {"kind": "order-read", "units": units, "raw": raw},
                               "strictly increasing presented values", [prev, v])
             prev = v
     return fails
@@ -255,9 +267,9 @@ def check_decimals(ctx, spa, tag, lines, expect, nontrivial):
         ctx.hist("write_forms", type(pv).__name__)
         key_in = {"kind": "write", "units": units, "value": repr(pv), "exact": str(fr)}
         if w1 != w2:
-            ctx.violation(f"paths:{units}:{fr}", key_in, "blocking and awaitable paths store the same word", [w1, w2])
+            viol(ctx, f"paths:{units}:{fr}", key_in, "blocking and awaitable paths store the same word", [w1, w2])
         if not isinstance(w1, int):
-            ctx.violation(f"write-raises:{units}:{fr}", key_in, "a word is written", w1)
+            viol(ctx, f"write-raises:{units}:{fr}", key_in, "a word is written", w1)
             continue
         # the value the caller denotes: the float that float(pv) is (exact), for the statement in real arithmetic use fr
         back = exact_read(units, w1)
@@ -266,9 +278,9 @@ def check_decimals(ctx, spa, tag, lines, expect, nontrivial):
         if is_rep:
             want = int(fr * 18) if units == "C" else int(fr * 10 - 320)
             if w1 != want:
-                ctx.violation(f"repr:{units}:{fr}", key_in, f"representable temperature stores {want} and reads back exactly", w1)
+                viol(ctx, f"repr:{units}:{fr}", key_in, f"representable temperature stores {want} and reads back exactly", w1)
         elif not (abs(back - fr) < st):
-            ctx.violation(f"step:{units}:{fr}", key_in, f"within one step ({st}) of {fr}", f"stored {w1} = {back}")
+            viol(ctx, f"step:{units}:{fr}", key_in, f"within one step ({st}) of {fr}", f"stored {w1} = {back}")
         if not is_rep:
             nontrivial.add((units, w1))
         # then read the stored word through the real accessor and write that back: stable
@@ -278,10 +290,10 @@ def check_decimals(ctx, spa, tag, lines, expect, nontrivial):
             v2 = impl_read(spa, tag, blk2)
             w3, _ = impl_write(spa, tag, blk2, v2)
             if w3 != w1:
-                ctx.violation(f"readback:{units}:{w1}", {"kind": "readback", "units": units, "raw": w1}, f"stable at {w1}", w3)
+                viol(ctx, f"readback:{units}:{w1}", {"kind": "readback", "units": units, "raw": w1}, f"stable at {w1}", w3)
         p = last.get(units)
         if p is not None and p[0] <= fr and p[1] > w1:
-            ctx.violation(f"mono:{units}:{p[0]}:{fr}", {"kind": "mono", "units": units, "a": p[2], "b": repr(pv)},
+            viol(ctx, f"mono:{units}:{p[0]}:{fr}", {"kind": "mono", "units": units, "a": p[2], "b": repr(pv)},
                           "t <= u implies stored(t) <= stored(u)", [p[1], w1])
         last[units] = (fr, w1, repr(pv))
 
@@ -322,7 +334,7 @@ def check_heater(ctx, cfg, log, drop, lines, expect, combos):
     try:
         spa = Spa(cfg, log, drop)
     except Exception as e:  # noqa
-        ctx.violation(f"pair-import:{cfg}:{log}", {"kind": "pair", "cfg": cfg, "log": log}, "the pair builds its accessors", f"{type(e).__name__}: {e}")
+        viol(ctx, f"pair-import:{cfg}:{log}", {"kind": "pair", "cfg": cfg, "log": log}, "the pair builds its accessors", f"{type(e).__name__}: {e}")
         return
     if not all(k in spa.accessors for k in HEATER_KEYS):
         ctx.hist("heater_pairs", "lacks-heater-items")
@@ -331,7 +343,7 @@ def check_heater(ctx, cfg, log, drop, lines, expect, combos):
         from geckolib.automation.heater import GeckoWaterHeater
         heater = GeckoWaterHeater(StubFacade(spa))
     except Exception as e:  # noqa
-        ctx.violation(f"heater-build:{cfg}:{log}:{','.join(drop)}", {"kind": "heater-build", "cfg": cfg, "log": log, "drop": list(drop)},
+        viol(ctx, f"heater-build:{cfg}:{log}:{','.join(drop)}", {"kind": "heater-build", "cfg": cfg, "log": log, "drop": list(drop)},
                       "GeckoWaterHeater builds on a pack that has the heater items", f"{type(e).__name__}: {e}")
         return
     ctx.hist("heater_pairs", "built")
@@ -354,7 +366,7 @@ def check_heater(ctx, cfg, log, drop, lines, expect, combos):
         want = ("°C", 15, 40) if units == "C" else ("°F", 59, 104)
         ctx.count("evaluations")
         if view != want:
-            ctx.violation(f"unit:{units}", {"kind": "unit", "cfg": cfg, "log": log, "units": units}, want, view)
+            viol(ctx, f"unit:{units}", {"kind": "unit", "cfg": cfg, "log": log, "units": units}, want, view)
         for hraw, hon in flag_states(ha):
             for craw, con in flag_states(ca):
                 for cur, tgt in words:
@@ -383,12 +395,12 @@ def check_heater(ctx, cfg, log, drop, lines, expect, combos):
                     inp = {"kind": "ladder", "cfg": cfg, "log": log, "drop": list(drop), "units": units, "heating_raw": hraw,
                            "cooling_raw": craw, "current_raw": cur, "target_raw": tgt}
                     if op != want:
-                        ctx.violation(f"ladder:h={fl(hon)}:c={fl(con)}:cmp={(cur > tgt) - (cur < tgt)}", inp, want, op)
+                        viol(ctx, f"ladder:h={fl(hon)}:c={fl(con)}:cmp={(cur > tgt) - (cur < tgt)}", inp, want, op)
                     if ison != (hon, con):
-                        ctx.violation(f"ison:{'bool' if ha is not None and ha.type == 'Bool' else 'enum'}:{hraw}:{craw}", inp, (hon, con), ison)
+                        viol(ctx, f"ison:{'bool' if ha is not None and ha.type == 'Bool' else 'enum'}:{hraw}:{craw}", inp, (hon, con), ison)
                     okt = all(nearest_double_ok(exact_read("C" if units == "C" else "F", r), v) for r, v in zip((cur, tgt, tgt), temps))
                     if not okt:
-                        ctx.violation(f"heater-temps:{units}:{cur}:{tgt}", inp, "heater temperatures are the accessor values", temps)
+                        viol(ctx, f"heater-temps:{units}:{cur}:{tgt}", inp, "heater temperatures are the accessor values", temps)
     # is_on of the real binary sensors vs the model's isOn
     from geckolib.automation.sensors import GeckoBinarySensor
     for a in (ha, ca):
@@ -422,7 +434,7 @@ def check_heater(ctx, cfg, log, drop, lines, expect, combos):
         want = (acc["SetpointG"].pos, 2, 675)
         ctx.count("evaluations")
         if got != want:
-            ctx.violation(f"heater-set:{units}", {"kind": "heater-set", "cfg": cfg, "log": log, "units": units, "value": t}, want, got)
+            viol(ctx, f"heater-set:{units}", {"kind": "heater-set", "cfg": cfg, "log": log, "units": units, "value": t}, want, got)
 
 
 def check_items(ctx, spa, lines, expect, quick):
@@ -445,7 +457,7 @@ def check_items(ctx, spa, lines, expect, quick):
                 ctx.count("evaluations")
                 ctx.count("item_reads")
                 if not nearest_double_ok(exact_read(units, raw), v):
-                    ctx.violation(f"item-value:{mod}:{tag}:{units}:{raw}", {"kind": "item-value", "cfg": spa.cfg, "log": spa.log, "tag": tag,
+                    viol(ctx, f"item-value:{mod}:{tag}:{units}:{raw}", {"kind": "item-value", "cfg": spa.cfg, "log": spa.log, "tag": tag,
                                                                             "units": units, "raw": raw}, str(exact_read(units, raw)), repr(v))
                 fr = Fraction(rng.randrange(1500, 4000), 100) if units == "C" else Fraction(rng.randrange(5900, 10400), 100)
                 spa.set_block(blk)
@@ -458,7 +470,7 @@ def check_items(ctx, spa, lines, expect, quick):
                 lines.append(f"te {mod} {tag} {hexs(units)} {bid} {fr.numerator} {fr.denominator}")
                 expect.append(("te", w))
                 if (a.read_write is None) != (w == "err:E_NOTWRITABLE"):
-                    ctx.violation(f"rw:{mod}:{tag}", {"kind": "item-rw", "cfg": spa.cfg, "log": spa.log, "tag": tag}, "refuses exactly when not writable", w)
+                    viol(ctx, f"rw:{mod}:{tag}", {"kind": "item-rw", "cfg": spa.cfg, "log": spa.log, "tag": tag}, "refuses exactly when not writable", w)
 
 
 def compare(ctx, lines, expect, model):
@@ -534,6 +546,7 @@ def pairs_for(ctx, mods):
 
 
 def run(ctx):
+    _VCOUNT.clear()
     st = translate.run(["TempArith", "AccessorArith", "Packs", "Pinned"])
     ctx.cov["translator"] = st
     for k, v in st.items():
@@ -549,7 +562,7 @@ def run(ctx):
         if tag is None:
             raise RuntimeError("no writable temperature item in " + str(REP))
     except Exception as e:  # noqa
-        ctx.violation("representative-accessor", {"kind": "pair", "cfg": REP[0], "log": REP[1]}, "builds a writable SetpointG", f"{type(e).__name__}: {e}")
+        viol(ctx, "representative-accessor", {"kind": "pair", "cfg": REP[0], "log": REP[1]}, "builds a writable SetpointG", f"{type(e).__name__}: {e}")
         rep = None
     if rep is not None:
         fails = enumerate_words(ctx, rep, tag, lines, expect)
@@ -584,7 +597,7 @@ def run(ctx):
             spa._log_tags = log_tags[log]
             check_items(ctx, spa, lines, expect, ctx.quick)
         except Exception as e:  # noqa
-            ctx.violation(f"pair-import:{cfg}:{log}", {"kind": "pair", "cfg": cfg, "log": log}, "the pair builds its accessors", f"{type(e).__name__}: {e}")
+            viol(ctx, f"pair-import:{cfg}:{log}", {"kind": "pair", "cfg": cfg, "log": log}, "the pair builds its accessors", f"{type(e).__name__}: {e}")
     # ---- correspondence
     try:
         model = Driver("Driver/C14.lean").run(lines)
